@@ -12,7 +12,7 @@ from simkit import harness as H
 from simkit import peers as P
 from simkit import tls as T
 from simkit import world as W
-from simkit.runner import Result, rng_for
+from simkit.runner import Result, rng_for, stable_hash
 
 ID = "C18"
 ENGINE = "simnet"
@@ -221,7 +221,7 @@ def run(sc: dict) -> Result:
                 pm.clear()
         except Exception:
             pass
-        res.digest = w.digest() if scheme == "http" else str(hash((tuple((q.peer, q.target, q.sid) for q in w.requests))))
+        res.digest = w.digest() if scheme == "http" else stable_hash([(q.peer, q.target, q.sid) for q in w.requests])
         res.trace = hash((kw, scheme, mode, ev, sc.get("flip")))
         res.nontrivial = rejected is None
         res.sim_s = w.now - W.VClock.START
